@@ -157,9 +157,15 @@ func (h *harness) agreement() {
 	}
 
 	// (a) signatures requested by kid through the crypto API / key store
-	done := map[string]bool{}
+	if h.agreed == nil {
+		h.agreed = map[string]bool{}
+	}
+	done := h.agreed
 	for _, rs := range h.requested {
 		rs := rs
+		if done[rs.token] {
+			continue
+		}
 		done[rs.token] = true
 		hdr := jwsHeader(rs.token)
 		if hdr == nil {
@@ -215,6 +221,7 @@ func (h *harness) agreement() {
 		if done[tok] || strings.Split(tok, ".")[1] == "" {
 			continue
 		}
+		done[tok] = true
 		hdr := jwsHeader(tok)
 		claimed, _ := hdr["kid"].(string)
 		kind := "harvested-jwt"
@@ -264,9 +271,10 @@ func (h *harness) agreement() {
 		}
 		doc := lds[sig]
 		vm := ldVerificationMethod(doc)
-		if vm == "" {
+		if vm == "" || done[sig] {
 			continue
 		}
+		done[sig] = true
 		if parts := strings.Split(sig, ".."); len(parts) == 2 {
 			h.emit("artefact/ld-proof-header", "ld-proof", b64dec(parts[0]))
 		}
@@ -359,6 +367,10 @@ func (h *harness) guarded(l *nsLayer, method string, hn hostile, rejected bool, 
 	r.Count("namespace_calls", 1)
 	r.Count("namespace_calls_"+l.name, 1)
 	r.Distinct("namespace_methods", l.name+"."+method)
+	if h.nsMethods == nil {
+		h.nsMethods = map[string]int{}
+	}
+	h.nsMethods[l.name+"."+method]++
 	r.Distinct("namespace_name_classes", hn.class)
 	if ok {
 		r.Count("namespace_calls_succeeded", 1)
@@ -370,7 +382,7 @@ func (h *harness) plantDecoys(paths ...string) []*decoy {
 	for _, p := range paths {
 		d, err := plantDecoy(p)
 		if err != nil {
-			h.r.Fatalf("decoy: %v", err)
+			h.fatalf("decoy: %v", err)
 		}
 		out = append(out, d)
 		h.allDecoys = append(h.allDecoys, d)
@@ -390,7 +402,7 @@ func (h *harness) namespaceBackend() {
 	r := h.r
 	root, err := os.MkdirTemp("", "c03-ns-")
 	if err != nil {
-		r.Fatalf("%v", err)
+		h.fatalf("%v", err)
 	}
 	defer os.RemoveAll(root)
 	data := filepath.Join(root, "data")
@@ -401,14 +413,14 @@ func (h *harness) namespaceBackend() {
 	_ = os.WriteFile(filepath.Join(data, "vcr", "trusted_issuers.yaml"), []byte("x: []\n"), 0o644)
 	backend, err := fsBackend.NewFileSystemBackend(keyDir)
 	if err != nil {
-		r.Fatalf("fs back end: %v", err)
+		h.fatalf("fs back end: %v", err)
 	}
 	store := spi.NewValidatedKIDBackendWrapper(backend, spi.KidPattern)
 	ctx := context.Background()
 	var existing []string
 	for _, n := range []string{"existing-1", "6f2c1d52-0c8a-4d5e-9a57-0f5f0c03c03a"} {
 		if _, _, err := store.NewPrivateKey(ctx, n); err != nil {
-			r.Fatalf("NewPrivateKey(%s): %v", n, err)
+			h.fatalf("NewPrivateKey(%s): %v", n, err)
 		}
 		existing = append(existing, n)
 	}
@@ -423,12 +435,12 @@ func (h *harness) namespaceBackend() {
 		// self-test of the watch: a read by the harness must be seen
 		_, _ = os.ReadFile(decoys[0].path)
 		if ev := watch.drain(); len(ev) == 0 {
-			r.Fatalf("inotify self-test: a read of the decoy produced no event")
+			h.fatalf("inotify self-test: a read of the decoy produced no event")
 		}
 	}
 	l := &nsLayer{name: "backend", keyDir: keyDir, roots: []string{root}, decoys: decoys, watch: watch,
 		skip: func(p string) bool { return p == keyDir }}
-	names := hostileNames(r.Rand("names-backend"), r.Pick(60, 500), keyDir, decoys, existing)
+	names := hostileNames(r.Rand("names-backend"), r.Pick(40, 400), keyDir, decoys, existing)
 	r.Extra("hostile_names_backend", len(names))
 	inKeyDir := func() map[string]bool {
 		out := map[string]bool{}
@@ -525,7 +537,7 @@ func (h *harness) namespaceNode(nr *nodeRef) {
 			existing = append(existing, strings.TrimSuffix(filepath.Base(f), "_private.pem"))
 		}
 	}
-	names := hostileNames(r.Rand("names-node"), r.Pick(60, 500), nr.keyDir, decoys, existing)
+	names := hostileNames(r.Rand("names-node"), r.Pick(30, 360), nr.keyDir, decoys, existing)
 	r.Extra("hostile_names_node", len(names))
 	payload := []byte("c03 ns")
 	req, _ := http.NewRequest("GET", "https://resource.example/ns", nil)
